@@ -513,6 +513,9 @@ fn main() {
                                          "delegate", "approve", "xfer_from", "xfer_from"];
                     if fl != "fungible" {
                         kinds.extend(["burn", "burn", "burn_from"]);
+                    } else if r.gen_bool(0.3) {
+                        // the example exposes no burn entry point: these calls must stay refused
+                        kinds.extend(["burn", "burn_from"]);
                     }
                     let kind = if i < 2 && r.gen_bool(0.7) { "mint" } else { *pick(&mut r, &kinds) };
                     let pick_from = |r: &mut StdRng| -> String {
